@@ -11,6 +11,10 @@ COMMON_TB = [
 
 PROPS = {
     "C12": {
+        "title": "Log files return exactly the records appended",
+        "technique": "Lean 4 theorems (round trip for all record lengths and session splits, truncation at every byte, writer death between fragments) over a model of logs.rs + byte-exact differential test of LogWriter/LogReader against the compiled model",
+        "level_text": "Machine-checked proof over the Lean model of LogWriter/LogReader for every block size, checksum function, record list, session split, truncation point and fragment cut; the model is tied to the code on every run by byte-exact comparison of file contents and reader output, exhaustively around the block-boundary arithmetic, and the round-trip/truncation/partial-append oracle is evaluated on the implementation itself.",
+        "design_ref": "5 (C12)",
         "level": "proof",
         "lean_modules": ["Rain.Props.C12"],
         "components": ["c12"],
@@ -23,4 +27,24 @@ PROPS = {
             "current_cursor_position of LogReader is not modelled (argued redundant in Rain/Log.lean)",
         ],
     },
+    "C14": {
+        "level": "proof",
+        "lean_modules": ["Rain.Props.C14"],
+        "components": ["c14"],
+        "title": "Filters never hide a key that is present",
+        "technique": "Lean 4 theorems (no false negative for every hash/key set/bits-per-key; filter-block index agreement for every monotone block layout; serialize/parse round trip) + differential test of BloomFilterPolicy and FilterBlockBuilder/Reader against the compiled model",
+        "level_text": "Machine-checked proof over the Lean model of filter_policy.rs / filter_block_builder.rs / filter_block.rs for all key sets, hashes, bits-per-key and block layouts; the model is tied to the code on every run by byte-exact comparison of created filters, filter blocks and match answers on generated inputs, and the no-false-negative oracle is evaluated on the implementation itself.",
+        "design_ref": "5 (C14)",
+        "trusted_base": COMMON_TB + [
+            "filter_size_bits as u32 does not truncate (filters below 2^32 bits; hypothesis _hfaithful)",
+            "f64 floor(bits_per_key*0.69) equals bits*69/100 for bits_per_key < 100 (compared by the harness for 0..128)",
+        ],
+        "assumptions": [
+            "the table builder calls notify_new_data_block with non-decreasing block offsets and Table::get queries the filter with the data block's start offset (checked at table level by the C13 component)",
+            "total filter-block size below 2^32 bytes",
+        ],
+    },
 }
+
+# properties whose check is registered in MANIFEST.json
+CLAIMED = ["C14"]
